@@ -34,6 +34,10 @@ def LTree.condSem (c : String) (st : Sspor) (a : UpdArgs) : Option Bool :=
     some (match st.nSensors, st.bm with | some k, some shape => decide (k > shape.1) | _, _ => false)
   else if c = "isinstance(self.optimizer, CCQR) and self.n_sensors > self.basis_matrix_.shape[1]" then
     some false        -- decides only whether a warning is printed (both arms have the same effect on the model)
+  else if c = "not isinstance(n_sensors, INT_DTYPES)" then some (match a.v with | .other => true | .int _ => false)
+  else if c = "n_sensors <= 0" then some (match a.v with | .other => false | .int z => decide (z ≤ 0))
+  else if c = "n_sensors > len(self.ranked_sensors_)" then
+    some (match a.v, st.ranking with | .int z, some r => decide (z > r.length) | _, _ => false)
   else if c = "x is None" then some a.x.isNone
   else if c = "n_basis_modes > x.shape[0]" then
     some (match a.v, a.x with | .int z, some (ne, _) => decide (z.toNat > ne) | _, _ => false)
@@ -49,6 +53,12 @@ def LTree.actSem (s : String) (st : Sspor) (a : UpdArgs) : Option (Sspor × Opti
     (match st.bm with | some shape => some ({ st with nSensors := some shape.1 }, none) | none => none)
   else if s = "self._n_sensors_defaulted = True" then some ({ st with defaulted := true }, none)
   else if s.startsWith "warnings.warn(" then some (st, none)
+  -- statements of `set_number_of_sensors`
+  else if s = "check_is_fitted(self, 'ranked_sensors_')" then
+    some (st, if st.ranking.isSome then none else some .notFitted)
+  else if s = "self._n_sensors_defaulted = False" then some ({ st with defaulted := false }, none)
+  else if s = "self.n_sensors = n_sensors" then
+    (match a.v with | .int z => some ({ st with nSensors := some z.toNat }, none) | .other => none)
   else
   match a.v with
   | .other => none
@@ -103,6 +113,14 @@ def LTree.validateSpec : LTree :=
         (.branch "isinstance(self.optimizer, CCQR) and self.n_sensors > self.basis_matrix_.shape[1]"
           (.act "warnings.warn('Number of sensors exceeds number of samples, which may cause CCQR to select sensors in constrained regions.')" .done)
           .done))))
+
+/-- `SSPOR.set_number_of_sensors` as it stands -/
+def LTree.setNSpec : LTree :=
+  .act "check_is_fitted(self, 'ranked_sensors_')"
+    (.branch "not isinstance(n_sensors, INT_DTYPES)" (.raise "ValueError")
+      (.branch "n_sensors <= 0" (.raise "ValueError")
+        (.branch "n_sensors > len(self.ranked_sensors_)" (.raise "ValueError")
+          (.act "self.n_sensors = n_sensors" (.act "self._n_sensors_defaulted = False" .done)))))
 
 /-- the part of `SSPOR.fit` in front of the optimizer call, as it stands: basis step (checked to be fitted / fitted on the validated
 data, with or without warnings), matrix representation with the model's own `n_basis_modes`, `_validate_n_sensors` – in this order
